@@ -263,3 +263,36 @@ func VH_C14_image_unchanged() {
 	}
 	vAssert("C14.image.caller_image_unchanged", same)
 }
+
+// C14-H12: "a pixel whose centre lies outside by more than a pixel is left untouched", for a
+// renderer made by FromImage on an image that already has content: after a small opaque square has
+// been drawn (and the renderer closed), pixels away from the square still hold what they held, in
+// every colour space.  Concrete; observed on the image.
+func VH_C14_fromimage_untouched() {
+	var cs canvas.ColorSpace
+	k := vChoose(0, 2)
+	switch k {
+	case 0:
+		cs = canvas.LinearColorSpace{}
+	case 1:
+		cs = canvas.SRGBColorSpace{}
+	default:
+		cs = canvas.GammaColorSpace{Gamma: 2.2}
+	}
+	img := image.NewRGBA(image.Rect(0, 0, 12, 12))
+	bg := color.RGBA{128, 100, 60, 255}
+	for y := 0; y < 12; y++ {
+		for x := 0; x < 12; x++ {
+			img.SetRGBA(x, y, bg)
+		}
+	}
+	r := FromImage(img, canvas.DPMM(1), cs)
+	style := canvas.DefaultStyle
+	style.Fill = canvas.Paint{Color: canvas.Black}
+	r.RenderPath(canvas.Rectangle(3, 3).Translate(1, 1), style, canvas.Identity)
+	r.Close()
+	// D73: in a non-linear colour space Close converts every pixel, also the untouched ones
+	vKnown("D73", k != 0)
+	vAssert("C14.fromimage.untouched_pixels_keep_their_content", img.RGBAAt(9, 2) == bg && img.RGBAAt(6, 6) == bg && img.RGBAAt(10, 10) == bg)
+	vAssert("C14.fromimage.square_painted", img.RGBAAt(2, 12-1-2).R <= 2)
+}
